@@ -127,6 +127,19 @@ Theorem C18_let_vars_sem : forall t ren u,
     forall f, sem t r f = sem t u (frename f ren).
 Proof. exact rename_spec. Qed.
 
+(* prime.rename_variables: unprimed and primed occurrences renamed together;
+   the support of the result avoids the renamed identifiers *)
+Theorem C18_rename_variables_sem : forall t lt u r,
+  wf_tbl t -> uses_only (all_bits t) u -> rename_variables t lt u = Some r ->
+  exists lp, map_opt (fun kv => match sprime (fst kv), sprime (snd kv) with
+                                | Some k, Some v => Some (k, v)
+                                | _, _ => None
+                                end) lt = Some lp /\
+    let lt' := dict_update String.eqb lt lp in
+    (ren_ok t lt' -> forall f, sem t r f = sem t u (frename f lt')) /\
+    (forall s, ctx_support t r = Some s -> forall k, In k s -> ~ In k (map fst lt')).
+Proof. exact rename_variables_sem. Qed.
+
 (* ---- support classification --------------------------------------------------------- *)
 (* the reported support is the semantic one (C07_support_spec) and its
    classification into unprimed / primed / rigid / flexible identifiers, and the
@@ -215,3 +228,4 @@ Print Assumptions C18_support_semantic.
 Print Assumptions C18_type_hint_sem.
 Print Assumptions C18_type_action_sem.
 Print Assumptions C18_implies_type_hints_spec.
+Print Assumptions C18_rename_variables_sem.
